@@ -45,7 +45,10 @@ PATTERNS = {
     'none': {},
     'su': {'testSetUp': 'ok'},
     'td': {'testTearDown': 'ok'},
+    # a layer whose testSetUp raises (the exception ends the run; the hooks called up to then stay balanced)
+    'su_raise': {'testSetUp': 'raise', 'testTearDown': 'ok'},
 }
+BASE_PATTERNS = ('both', 'none', 'su', 'td')
 NAMES = 'ABCDE'
 # every kind of layerworld.KINDS plus the class decorator (a group flag)
 ALL_KINDS = lw.KINDS + ('skip_class_decorator',)
@@ -101,9 +104,18 @@ def check(world):
                 opened_in[layer] = cur
             else:
                 if depth.get(layer, 0) == 0:
-                    flag(cur, 'testTearDown-without-testSetUp',
-                         'layer %s got testTearDown without a matching '
-                         'testSetUp' % layer)
+                    raising = [r for r in world.stack(layer) if r != layer and world.hook_raises(r, 'testSetUp')]
+                    if raising:
+                        # the testSetUp of a layer below raised: this layer's own testSetUp was never reached, the
+                        # exception ends the run, and stopTest still walks the whole stack (known finding, own key)
+                        viol.append(('hook-raises:testTearDown-on-layer-above-the-raising-testSetUp',
+                                     'the testSetUp of layer %s raised (the run ends with that exception); layer %s, derived '
+                                     'from it, was never given testSetUp but gets testTearDown [test %s]'
+                                     % (raising[0], layer, cur)))
+                    else:
+                        flag(cur, 'testTearDown-without-testSetUp',
+                             'layer %s got testTearDown without a matching '
+                             'testSetUp' % layer)
                 else:
                     depth[layer] -= 1
         elif cur is not None and e[0] in OWN:
@@ -262,9 +274,21 @@ def stage_minimal():
     plus each kind on the unit-test layer"""
     for kind in ALL_KINDS:
         for lk in ('class', 'instance'):
-            for pat in PATTERNS:
+            for pat in BASE_PATTERNS:
                 yield make_spec([[]], [lk], [pat], [(0, [kind])])
         yield make_spec([], [], [], [], unit=[kind])
+
+
+def stage_hook_raises():
+    """the testSetUp of a derived layer raises for the first test it brackets: chains of 2 and 3 layers, the raising
+    layer last or in the middle; every layer below it has both hooks"""
+    for graph, bad in (([[], [0]], 1), ([[], [0], [1]], 2), ([[], [0], [1]], 1), ([[], [], [0, 1]], 2)):
+        for lk in ('class', 'instance'):
+            if lk == 'class' and not lw.class_buildable(graph):
+                continue
+            pats = ['su_raise' if i == bad else 'both' for i in range(len(graph))]
+            for kind in ('pass', 'fail'):
+                yield make_spec(graph, [lk] * len(graph), pats, [(len(graph) - 1, [kind, 'pass'])])
 
 
 def stage_pairs():
@@ -304,7 +328,7 @@ def random_spec(rng):
             cand = ['class'] * cut + ['instance'] * (n - cut)
             if lw.kinds_ok(graph, cand) and lw.class_buildable(graph[:cut]):
                 kinds = cand
-    pats = [rng.choice(tuple(PATTERNS)) for _ in range(n)]
+    pats = [rng.choice(BASE_PATTERNS) for _ in range(n)]
     owners = [i for i in range(n) if rng.random() < 0.6] or [n - 1]
     rng.shuffle(owners)
     seqs = [(o, [rng.choice(ALL_KINDS) for _ in range(rng.randint(1, 6))])
@@ -337,13 +361,13 @@ def run(budget_s, seed, tier='quick'):
     distinct = set()
     samples = []
     if tier == 'quick':
-        pats = {1: tuple(PATTERNS), 2: tuple(PATTERNS),
+        pats = {1: BASE_PATTERNS, 2: BASE_PATTERNS,
                 3: ('both', 'none', 'su')}
         bound3 = '{both, none, testSetUp only}^3'
     else:
-        pats = {1: tuple(PATTERNS), 2: tuple(PATTERNS), 3: tuple(PATTERNS)}
+        pats = {1: BASE_PATTERNS, 2: BASE_PATTERNS, 3: BASE_PATTERNS}
         bound3 = 'all 4 hook patterns per layer'
-    stages = [('minimal', stage_minimal()), ('pairs', stage_pairs()),
+    stages = [('minimal', stage_minimal()), ('hook-raises', stage_hook_raises()), ('pairs', stage_pairs()),
               ('graphs', stage_graphs(3, pats))]
     exhaustive = True
     done = {}
@@ -353,7 +377,11 @@ def run(budget_s, seed, tier='quick'):
         world, viol = run_case(spec)
         cases += 1
         tests += sum(1 for e in world.trace if e[0] == 'run.enter')
-        if world.crash:
+        planned = any(b == 'raise' for ly in spec['layers'] for b in (ly.get('hooks') or {}).values()) \
+            if isinstance(spec.get('layers'), list) and spec['layers'] and isinstance(spec['layers'][0], dict) else False
+        if world.crash and planned and 'LayerHookError' in world.crash:
+            pass            # the planned hook exception ends the run (C04 lets it through); balance is judged below
+        elif world.crash:
             crashes += 1
             findings.add('runner-crash:' + world.crash.strip().splitlines()[-1]
                          .split(':')[0], world.crash, spec)
